@@ -493,3 +493,53 @@ def pure_waiter(prog, body, c):
         return False
     names = [x.callee for x in tgt.live_calls()]
     return bool(names) and set(names) == {"std::sync::Barrier::wait"} and not tgt.loops
+
+
+def slot_selected_by_match(b, recv_op, selector_callee):
+    """The place a call's receiver points to is chosen by a `match` on selector_callee(..): the receiver local has one
+    definition per arm of a switch whose discriminant derives from that call, each a reference to a different static."""
+    def inner(rv):
+        if rv["k"] in ("ref", "rawptr"):
+            return rv["p"]
+        if rv["k"] in ("use", "cast") and rv.get("o", {}).get("k") in ("copy", "move"):
+            return rv["o"]["p"]
+        return None
+    if recv_op.get("k") not in ("copy", "move"):
+        return False
+    l = recv_op["p"]["l"]
+    for _ in range(8):
+        defs = [d for d in b.prov.defs.get(l, []) if d[0] == "S"]
+        if len(defs) != 1:
+            break
+        pl = inner(defs[0][3]["rv"])
+        if pl is None:
+            break
+        l = pl["l"]
+    defs = [d for d in b.prov.defs.get(l, []) if d[0] == "S"]
+    if len(defs) < 2:
+        return False
+    picks = []
+    for d in defs:
+        pl = inner(d[3]["rv"])
+        if pl is None:
+            return False
+        consts = {x.a for x in b.prov.op_src({"k": "copy", "p": {"l": pl["l"], "proj": []}}) if x.kind in ("const", "static")}
+        if len(consts) != 1:
+            return False
+        picks.append((d[1], consts.pop()))
+    if len({x[1] for x in picks}) != len(picks):
+        return False        # two arms share one cell
+    for sb, t in b.switches():
+        if not any(x.kind == "call" and x.a == selector_callee for x in b.prov.op_src(t["discr"])):
+            continue
+        targets = [a[1] for a in t["arms"]] + [t["otherwise"]]
+        used = set()
+        for bi, _ in picks:
+            arm = [tg for tg in targets if b.pred[tg] == [sb] and b.dominates(tg, bi)]
+            if len(arm) != 1:
+                break
+            used.add(arm[0])
+        else:
+            if len(used) == len(picks):
+                return True
+    return False
